@@ -23,7 +23,9 @@ META = {
                "thorough": "more cells, grid sizes, SGPR M=2 with/without diagonal correction"},
     "outside": ["the interpolated kernel converges to the base kernel as the grid is refined (asymptotic, analytic)",
                 "Toeplitz / FFT path (use_toeplitz(True))", "CG-selected paths", "RFF kernel and prediction strategy (random features)",
-                "KISS-GP prediction strategy and its fantasy update (sparse interpolation tensors are not encoded yet)", "rounding"],
+                "KISS-GP (InterpolatedPredictionStrategy): the predictive COVARIANCE for training inputs strictly inside grid cells (decided "
+                "only for training inputs at grid nodes; the mean is decided for both), and the WISKI fantasy update (SVD inside "
+                "add_low_rank, nested square roots)", "rounding"],
     "assumptions": ["reals for floats", "x stays inside the enumerated grid cell (path condition from floor())"],
 }
 TIMEOUT_S = {"quick": 600, "thorough": 3000}
@@ -171,48 +173,126 @@ def kiss_kernel(S, sizes, ard):
     S.prove_eq(out, R, "KISS kernel = W1 K_UU W2^T (grid %s, %s)" % (list(sizes), "ARD" if ard else "shared lengthscale"))
 
 
-def kiss_model(S, fantasy, fpv):
-    """KISS-GP exact model (InterpolatedPredictionStrategy): prediction [and fantasy update] = dense conditional for the
-    approximate kernel matrix the interpolation kernel represents"""
-    n, m, f = 2, 1, (1 if fantasy else 0)
-    base = K.RBFKernel()
-    gk = K.GridInterpolationKernel(base, grid_size=6, num_dims=1, grid_bounds=[(0.0, 1.0)])
+class GridStubKernel(gpytorch.kernels.Kernel):
+    """stub base kernel for grid kernels: k(g_i, g_j) = table[i, j] for points of a known one-dimensional grid (inputs are
+    matched to grid points by coordinate). Everything around it (GridKernel, GridInterpolationKernel, the interpolated
+    linear operator, the prediction strategy) is the real code."""
+
+    is_stationary = True  # (GridKernel only asks for the flag; Toeplitz structure is switched off in the scenarios)
+
+    def __init__(self, grid, table):
+        super().__init__()
+        self.g = grid.detach().clone().reshape(-1)
+        self.table = table
+
+    def _idx(self, x):
+        d = (x.detach().reshape(-1, 1) - self.g.reshape(1, -1)).abs()
+        if float(d.min(dim=1)[0].max()) > 1e-9:
+            raise HarnessError("GridStubKernel evaluated off its grid")
+        return d.argmin(dim=1)
+
+    def forward(self, x1, x2, diag=False, last_dim_is_batch=False, **kw):
+        if x1.shape[-1] != 1 or x1.dim() != 2:
+            raise HarnessError("GridStubKernel: one-dimensional un-batched grids only")
+        i1, i2 = self._idx(x1), self._idx(x2)
+        K = self.table[i1][:, i2]
+        if diag:
+            K = K.diagonal()
+        return K.unsqueeze(0) if last_dim_is_batch else K
+
+
+def kiss_model(S, fantasy, fpv, mean="constant", G=6, nodes=(), fnode=None, symx=False):
+    """KISS-GP exact model (InterpolatedPredictionStrategy): prediction [and WISKI fantasy update] = dense conditional for the
+    approximate kernel matrix W K_UU W^T the interpolation kernel represents. K_UU is an arbitrary symbolic SPD matrix
+    (stub base kernel on the grid points).
+      nodes=():  two training inputs strictly inside grid cells (general interpolation weights): the MEAN is decided
+                 (the covariance needs nested square roots of long polynomials: not claimed in this configuration)
+      nodes=(..): training inputs AT those grid nodes (W selects rows), K_UU + noise on those nodes = G G^T so that the
+                 Cholesky pivots resolve; test inputs are arbitrary: mean and covariance decided [fantasy input at node fnode]"""
+    f = 1 if fantasy else 0
+    m = 1
+    # dyadic grid: node coordinates and index arithmetic are exact in floating point, so an input AT a node has exactly unit weights
+    h = 0.25
+    grid = torch.arange(G, dtype=torch.float64) * h - h
+    gbounds = [(0.0, float(grid[-2]))]
     lik = gpytorch.likelihoods.GaussianLikelihood()
-    xall = torch.tensor([[0.31], [0.58], [0.44], [0.69]])[: n + f + m] + S.rand(n + f + m, 1, lo=0.0, hi=0.02)
-    S.sym_tensor(xall, "x")
-    x, xf, xs = xall[:n], xall[n:n + f], xall[n + f:]
+    declare_params(S, lik, "lik_", scale=0.3)
+    for p in lik.parameters():
+        p.requires_grad_(False)
+    with S.mode():
+        sig_t = lik.noise.clone()
+        sig = as_sym_arr(SH.get(sig_t)).reshape(-1)[0]
+    Gs, Gc = S.factor("u", G)
+    if nodes:
+        n = len(nodes)
+        perm = list(nodes) + [i for i in range(G) if i not in nodes]
+        inv = [perm.index(i) for i in range(G)]
+        J = (Gs @ Gs.T)
+        Jc = Gc @ Gc.T
+        for i in range(n):
+            J[i, i] = J[i, i] - sig
+            Jc[i, i] = Jc[i, i] - float(sig_t)
+        Ksym = J[np.ix_(inv, inv)]
+        table = Jc[inv][:, inv].contiguous()
+        xtr = grid[list(nodes)].clone().reshape(-1, 1)
+    else:
+        n = 2
+        Ksym = Gs @ Gs.T
+        table = (Gc @ Gc.T).contiguous()
+        xtr = torch.tensor([[float(grid[G // 2 - 1]) + 0.25 * h], [float(grid[G // 2]) + 0.5 * h]])
+        if symx:
+            S.sym_tensor(xtr, "x")
+    S.put(table, Ksym)
+    gk = K.GridInterpolationKernel(GridStubKernel(grid, table), grid_size=G, num_dims=1, grid_bounds=gbounds)
+    gk.update_grid([grid.clone()])
+    xte = torch.tensor([[float(grid[G // 2 - 1]) + 0.75 * h]])
+    if symx:
+        S.sym_tensor(xte, "z")
+    xf = grid[[fnode]].clone().reshape(1, 1) if (fantasy and fnode is not None) else torch.tensor([[float(grid[G // 2]) + 0.125 * h]])[:f]
+    xall = torch.cat([xtr, xf, xte], 0)
+    x, xs = xall[:n], xall[n + f:]
     y = S.randn(n + f); Y = S.sym_tensor(y, "y")
 
     class Model(gpytorch.models.ExactGP):
         def __init__(self_):
             super().__init__(x, y[:n], lik)
-            self_.mean_module = gpytorch.means.ConstantMean()
+            self_.mean_module = make_mean(mean)
             self_.covar_module = gk
 
         def forward(self_, xx):
             return gpytorch.distributions.MultivariateNormal(self_.mean_module(xx), self_.covar_module(xx))
 
     model = Model()
-    declare_params(S, model, "p_", scale=0.3)
+    declare_params(S, model.mean_module, "mean_", scale=0.5)
     for p in model.parameters():
         p.requires_grad_(False)
     model.eval(); lik.eval()
     with S.mode(), gpytorch.settings.use_toeplitz(False), gpytorch.settings.fast_pred_var(fpv):
         with gpytorch.settings.lazily_evaluate_kernels(False):
             Kall = as_sym_arr(SH.get(dense(gk(xall, xall)))).copy()
-        c = as_sym_arr(SH.get(model.mean_module.constant)).reshape(-1)[0]
-        sig = as_sym_arr(SH.get(lik.noise)).reshape(-1)[0]
+        mall = as_sym_arr(SH.get(model.mean_module(xall)))
         out = model(xs)
+        m0 = out.mean
+        c0 = out.covariance_matrix if nodes else None
         if fantasy:
-            fm = model.get_fantasy_model(xf, y[n:])
-            out = fm(xs)
-        mean_t, cov_t = out.mean, out.covariance_matrix
-    ntr = n + f
-    A = Kall[:ntr, :ntr] + eye(ntr) * sig
-    Ksx = Kall[ntr:, :ntr]
-    sol = gauss_inverse_solve(A, np.concatenate([(Y[:ntr] - c).reshape(ntr, 1), Ksx.T], axis=1))
-    S.prove_eq(mean_t, (Ksx @ sol[:, :1]).reshape(-1) + c, "KISS-GP %smean = dense conditional on the interpolated kernel matrix" % ("fantasy " if fantasy else ""))
-    S.prove_eq(cov_t, Kall[ntr:, ntr:] - Ksx @ sol[:, 1:], "KISS-GP %scovariance = dense conditional on the interpolated kernel matrix" % ("fantasy " if fantasy else ""))
+            fm = S.must_not_raise("KISS-GP get_fantasy_model", lambda: model.get_fantasy_model(xf, y[n:]))
+            outf = fm(xs)
+            mf, cf = outf.mean, outf.covariance_matrix
+    def cond(ntr):
+        tr = list(range(ntr))
+        te = list(range(n + f, n + f + m))
+        A = Kall[np.ix_(tr, tr)] + eye(ntr) * sig
+        Ksx = Kall[np.ix_(te, tr)]
+        sol = gauss_inverse_solve(A, np.concatenate([(Y[:ntr] - mall[tr]).reshape(ntr, 1), Ksx.T], axis=1))
+        return (Ksx @ sol[:, :1]).reshape(-1) + mall[te], Kall[np.ix_(te, te)] - Ksx @ sol[:, 1:]
+    Mref, Cref = cond(n)
+    S.prove_eq(m0, Mref, "KISS-GP mean = dense conditional on the interpolated kernel matrix")
+    if c0 is not None:
+        S.prove_eq(c0, Cref, "KISS-GP covariance = dense conditional on the interpolated kernel matrix")
+    if fantasy:
+        Mref, Cref = cond(n + f)
+        S.prove_eq(mf, Mref, "KISS-GP fantasy mean = dense conditional on train + fantasy data")
+        S.prove_eq(cf, Cref, "KISS-GP fantasy covariance = dense conditional on train + fantasy data")
 
 
 def sgpr(S, n, M, m, diag_corr, what):
@@ -311,10 +391,17 @@ def scenarios(tier, seed):
     add("sgpr", n=2, M=1, m=1, diag_corr=False, what="objective")
     add("sgpr", n=2, M=1, m=1, diag_corr=False, what="predict")
     add("sgpr", n=2, M=1, m=1, diag_corr=True, what="predict")
-    # kiss_model (KISS-GP prediction strategy and its fantasy update) is implemented above but NOT registered: the
-    # prediction's obligations stay `unknown` (36 exp atoms x nested square roots) and the fantasy update factorises a
-    # matrix that needs the jitter-retry path at every witness tried; both are declared outside the claim.
+    add("kiss_model", fantasy=False, fpv=False)
+    add("kiss_model", fantasy=False, fpv=False, nodes=[2, 3])
+    add("kiss_model", fantasy=False, fpv=True, nodes=[2, 3])
+    add("kiss_model", fantasy=False, fpv=False, nodes=[3, 1])
+    # WISKI fantasy update (kiss_model(fantasy=True)) is implemented above but NOT registered: add_low_rank takes an SVD
+    # (only decomposable here when its argument is constant on the path) and the updated caches need the Cholesky factor of
+    # a 4x4 matrix of long polynomials (nested square roots: z3's simplifier does not finish); declared outside the claim.
     if tier == "thorough":
+        add("kiss_model", fantasy=False, fpv=False, nodes=[1, 4, 2], G=7)
+        add("kiss_model", fantasy=False, fpv=True, nodes=[4, 0], mean="zero")
+        add("kiss_model", fantasy=False, fpv=False, symx=True)
         add("interpolation", sizes=[5, 6, 5], cell="interior")
         add("kiss_kernel", sizes=[5, 6, 5], ard=True)
         add("sgpr", n=2, M=2, m=1, diag_corr=False, what="objective")
